@@ -4,6 +4,8 @@ package sftp_test
 
 import (
 	"bytes"
+	"context"
+	"errors"
 	"fmt"
 	"io"
 	"os"
@@ -47,11 +49,14 @@ func vfGenC03(t *rapid.T) vfCaseC03 {
 		n := rapid.IntRange(1, 8).Draw(t, "nops")
 		var prog []vfC03Op
 		for k := 0; k < n; k++ {
-			op := vfC03Op{Kind: rapid.SampledFrom([]string{"Stat", "Stat", "Lstat", "ReadLink", "RealPath", "ReadDir", "StatVFS", "ReadAt", "ReadAt", "ReadAt", "WriteAt", "WriteAt", "FStat"}).Draw(t, "kind")}
+			op := vfC03Op{Kind: rapid.SampledFrom([]string{"Stat", "Stat", "Lstat", "ReadLink", "RealPath", "ReadDir", "StatVFS", "ReadAt", "ReadAt", "ReadAt", "WriteAt", "WriteAt", "FStat", "ReadDirCancel"}).Draw(t, "kind")}
 			op.I = rapid.IntRange(0, vfC03Files-1).Draw(t, "i")
 			switch op.Kind {
 			case "ReadDir":
 				op.I %= vfC03Dirs
+			case "ReadDirCancel":
+				op.I %= vfC03Dirs
+				op.Len = rapid.IntRange(0, 1).Draw(t, "cancelwhen") // 0: before the call, 1: concurrently with it
 			case "ReadAt":
 				fl := vfC03FileLen(op.I, mp)
 				op.Off = rapid.IntRange(0, fl-1).Draw(t, "off")
@@ -187,6 +192,32 @@ func vfRunC03(ctx *vfCtx, c vfCaseC03) {
 					sort.Strings(names)
 					sort.Strings(want)
 					o.got, o.want = strings.Join(names, ","), strings.Join(want, ",")
+				case "ReadDirCancel":
+					// A caller that gives up (seed C03-c): its request stays outstanding, the server answers it
+					// whenever it likes, and nobody else may notice. The call itself may end either way.
+					cctx, cancel := context.WithCancel(context.Background())
+					if op.Len == 0 {
+						cancel()
+					} else {
+						go cancel()
+					}
+					fis, err := s.c.ReadDirContext(cctx, fmt.Sprintf("/d%d", op.I))
+					cancel()
+					var names, want []string
+					for _, fi := range fis {
+						names = append(names, fmt.Sprintf("%s:%d", fi.Name(), fi.Size()))
+					}
+					for k := 0; k <= op.I; k++ {
+						want = append(want, fmt.Sprintf("e%d_%d:%d", op.I, k, op.I*10+k))
+					}
+					sort.Strings(names)
+					sort.Strings(want)
+					o.got, o.want = strings.Join(names, ","), strings.Join(want, ",")
+					if errors.Is(err, context.Canceled) {
+						o.got = o.want
+					} else {
+						o.err = err
+					}
 				case "StatVFS":
 					v, err := s.c.StatVFS("/")
 					o.err = err
